@@ -659,6 +659,7 @@ def r6(run: Run, src, g, em, rt, forms):
 
 
 def run(run: Run):
+    from .common import cached_guard as _cached_guard
     src = get_source()
     g = get_grammar(src)
     em = get_emission(src)
@@ -674,11 +675,11 @@ def run(run: Run):
     if not forms:
         run.error('C01.R1', 'no emission forms could be extracted from ExpressionTokenTranslator')
         return INFO
-    run.guard('C01.R1', r1, run, src, g, em, forms)
-    run.guard('C01.R2', r2, run, src, g, em)
-    run.guard('C01.R4', r3_r4, run, src, g, em, forms, run.tier)
-    run.guard('C01.R5', r5, run, src, g, em)
-    run.guard('C01.R6', r6, run, src, g, em, rt, forms)
+    _cached_guard(run, 'C01.R1', r1, src, g, em, forms)
+    _cached_guard(run, 'C01.R2', r2, src, g, em)
+    _cached_guard(run, 'C01.R4', r3_r4, src, g, em, forms, run.tier)
+    _cached_guard(run, 'C01.R5', r5, src, g, em)
+    _cached_guard(run, 'C01.R6', r6, src, g, em, rt, forms)
     # the six comparisons are part of this property: exactness of the comparison helper is C10.R1/R2, shared here
     from .common import borrow
     from . import c10
@@ -687,7 +688,7 @@ def run(run: Run):
     borrow(run, 'C01.R7', c10.r2, src, rt)
     borrow(run, 'C01.R7', c10.r9_concrete_operands, rt)
     from . import lexer_eval
-    run.guard('C01.R5', lexer_eval.number_literal_obligations, run, 'C01.R5', src, g)
+    _cached_guard(run, 'C01.R5', lexer_eval.number_literal_obligations, 'C01.R5', src, g)
     # operand values: a reference operand is resolved for the cell that holds the formula, an override reaches the instance
     from . import c02, c04
     run.rule('C01.R8', 'operand values: the tree is parsed for its own cell (shared with C02.R8); every override batch is stored and '
